@@ -34,9 +34,17 @@ type scenario struct {
 	Faults      []int
 	Tags        map[string]bool // features present, for the coverage statistics
 	NoReplay    bool            // Go map iteration order can show: judged by the set-level checkers only
+	Host        string          // the host the request names (default: the server's own)
 	PreHeaders  bool            // the response's header map already holds values of the application's when the library is called
 	Pre         *scenario       // an earlier request served by the SAME actor value (its own configuration; not recorded)
 	ClockDelta  int64           // of a Pre request: its clock reading relative to the recorded request's
+}
+
+func (sc *scenario) hostname() string {
+	if sc.Host != "" {
+		return sc.Host
+	}
+	return host
 }
 
 type runResult struct {
@@ -124,14 +132,14 @@ func runScenario(sc *scenario) (res runResult) {
 			body = []byte(sc.RawBody)
 		}
 		mkReq := func() *http.Request {
-			q, _ := http.NewRequest(sc.Method, "https://"+host+sc.Path, bytes.NewReader(body))
+			q, _ := http.NewRequest(sc.Method, "https://"+sc.hostname()+sc.Path, bytes.NewReader(body))
 			if sc.ContentType != "" {
 				q.Header.Set("Content-Type", sc.ContentType)
 			}
 			if sc.Accept != "" {
 				q.Header.Set("Accept", sc.Accept)
 			}
-			q.Host = host
+			q.Host = sc.hostname()
 			return q
 		}
 		if actor == nil && sc.Entry != "handler" {
@@ -154,7 +162,7 @@ func runScenario(sc *scenario) (res runResult) {
 				panic("harness: Send value does not decode: " + terr.Error())
 			}
 			var act pub.Activity
-			act, err = actor.Send(ctx, mustURL("https://"+host+sc.Path), t)
+			act, err = actor.Send(ctx, mustURL("https://"+sc.hostname()+sc.Path), t)
 			handled = true
 			if err == nil && act != nil {
 				sent = ser(act)
@@ -379,7 +387,7 @@ func (e *emitter) run(sc *scenario, res *runResult) string {
 		tr[i] = e.entry(x)
 	}
 	return fmt.Sprintf("{| u_family := %s; u_cfg := %s; u_entry := %s;\n   u_req := {| r_method := %s; r_content_type := %s; r_accept := %s; r_body := %s; r_id := %s |};\n   u_send := %s;\n   u_trace := [%s];\n   u_handled := %s; u_result := %s; u_replay := %s |}",
-		e.str(sc.Family), e.cfg(sc.Cfg), coqStr(sc.Entry), coqStr(sc.Method), e.str(sc.ContentType), e.str(sc.Accept), body, e.str("https://"+host+sc.Path),
+		e.str(sc.Family), e.cfg(sc.Cfg), coqStr(sc.Entry), coqStr(sc.Method), e.str(sc.ContentType), e.str(sc.Accept), body, e.str("https://"+sc.hostname()+sc.Path),
 		send, strings.Join(tr, ";\n     "), coqBool(res.Handled), coqStr(res.Result), coqBool(!sc.NoReplay))
 }
 
